@@ -77,9 +77,18 @@ class Creators:
         self._records[gfa_line.record_type] = {}
       self._records[gfa_line.record_type][id(gfa_line)] = gfa_line
 
+  @staticmethod
+  def __record_type_of_string(gfa_line):
+    # the record type is the first field, not the first character
+    # (except for comments)
+    if gfa_line[0] == "#":
+      return "#"
+    else:
+      return gfa_line.split(gfapy.Line.SEPARATOR, 1)[0]
+
   def __add_line_unknown_version(self, gfa_line):
     if isinstance(gfa_line, str):
-      rt = gfa_line[0]
+      rt = self.__record_type_of_string(gfa_line)
     elif isinstance(gfa_line, gfapy.Line):
       rt = gfa_line.record_type
     else:
@@ -131,7 +140,7 @@ class Creators:
 
   def __add_line_GFA1(self, gfa_line):
     if isinstance(gfa_line, str):
-      if gfa_line[0] == "S":
+      if self.__record_type_of_string(gfa_line) == "S":
         gfa_line = gfapy.Line(gfa_line, vlevel=self._vlevel,
             dialect=self._dialect)
       else:
@@ -165,7 +174,7 @@ class Creators:
 
   def __add_line_GFA2(self, gfa_line):
     if isinstance(gfa_line, str):
-      if gfa_line[0] == "S":
+      if self.__record_type_of_string(gfa_line) == "S":
         gfa_line = gfapy.Line(gfa_line, vlevel=self._vlevel,
             dialect=self._dialect)
       else:
